@@ -250,6 +250,9 @@ func genCase(t *rapid.T) Case {
 				kind = "nil"
 			case v == 5:
 				s = fmt.Sprintf(".kw(%d, z: %d)", i, rapid.IntRange(0, 5).Draw(t, "z"))
+				if rapid.Bool().Draw(t, "kwargs only") {
+					s = fmt.Sprintf(".kw(y: %d, z: %d)", i+2, rapid.IntRange(0, 5).Draw(t, "z"))
+				}
 				kind = "arr"
 			case v == 6:
 				s = fmt.Sprintf(".{|o| \"s%d\".p; nil}", i)
@@ -272,7 +275,7 @@ func genCase(t *rapid.T) Case {
 			case v == 2:
 				s = ".^g2"
 			case v == 3:
-				s = ".{|n| n.S}"
+				s = rapid.SampledFrom([]string{".{|n| n.S}", ".S(base: 2)", ".S(base: 16)", ".S"}).Draw(t, "tostr")
 				kind = "str"
 			case v == 4:
 				s = fmt.Sprintf(".{|n| \"s%d\".p; nil}", i)
@@ -291,10 +294,10 @@ func genCase(t *rapid.T) Case {
 			case v == 1:
 				s = `.+("z")`
 			case v == 2:
-				s = ".{|x| x.len}"
+				s = rapid.SampledFrom([]string{".{|x| x.len}", ".len", ".I(base: 16)", ".I(base: 36)"}).Draw(t, "toint")
 				kind = "int"
 			default:
-				s = fmt.Sprintf(".{|x| \"s%d\".p; x * 2}", i)
+				s = rapid.SampledFrom([]string{fmt.Sprintf(".{|x| \"s%d\".p; x * 2}", i), ".split(sep: \"b\").{|a| a.join(\"-\")}", ".sub(\"a\", \"bb\")"}).Draw(t, "strstep")
 			}
 		case "arr":
 			switch v := rapid.IntRange(0, 4).Draw(t, "step"); {
@@ -312,6 +315,21 @@ func genCase(t *rapid.T) Case {
 			default:
 				s = fmt.Sprintf(".{|x| \"s%d\".p; [*x, %d]}", i, i)
 			}
+		case "errval":
+			// the value held is an error object that was returned, not raised: the chain goes on
+			switch rapid.IntRange(0, 2).Draw(t, "step") {
+			case 0:
+				s = fmt.Sprintf(".{|e| \"s%d\".p; e.msg}", i)
+				kind = "str"
+			case 1:
+				s = fmt.Sprintf(".{|e| \"s%d\".p; e}", i)
+			default:
+				s = fmt.Sprintf(".{|e| \"s%d\".p; 4}", i)
+				kind = "int"
+			}
+			if fail {
+				s = ".^gbad"
+			}
 		case "nil":
 			switch v := rapid.IntRange(0, 3).Draw(t, "step"); {
 			case fail && v < 2:
@@ -327,6 +345,11 @@ func genCase(t *rapid.T) Case {
 				s = fmt.Sprintf(".{|x| \"s%d\".p; \"q\"}", i)
 				kind = "str"
 			}
+		}
+		if !fail && kind != "errval" && rapid.IntRange(0, 9).Draw(t, "returns an error value") == 0 {
+			// this step succeeds and its result is an error value (held by another try, or made with new)
+			s = rapid.SampledFrom([]string{fmt.Sprintf(".{|x| \"s%d\".p; 1.try.{|y| y / 0}.err}", i), fmt.Sprintf(".{|x| \"s%d\".p; nil.try.{|y| raise ValueErr.new(\"held\")}.err}", i)}).Draw(t, "errval step")
+			kind = "errval"
 		}
 		c.Steps = append(c.Steps, s)
 	}
